@@ -103,9 +103,10 @@ def close(a, b, tol=1e-9):
 
 
 # ------------------------------------------------------------------ symbolic inputs
-def sym_inputs(sig, prefix=""):
+def sym_inputs(sig, prefix="", structs=()):
     """sig: list of (type, name).  -> (values dict, z3 vars list [(name, var, kind)], precondition list)"""
     vals, zvars, pre = {}, [], []
+    sdefs = {s.name: s for s in structs}
 
     def mk(t, path):
         if t in ("int", "uint"):
@@ -128,14 +129,17 @@ def sym_inputs(sig, prefix=""):
                     return mk(t[1], p)
                 return [build(dims[1:], f"{p}_{i}") for i in range(dims[0])]
             return build(list(t[2]), path)
+        if A.is_struct(t) and t[1] in sdefs:
+            return {fn: mk(ft, f"{path}_{fn}") for ft, fn in sdefs[t[1]].fields}
         raise ValueError(f"no symbolic input of type {t}")
     for t, n in sig:
         vals[n] = mk(t, prefix + n)
     return vals, zvars, pre
 
 
-def concrete_inputs(sig, model_vals, prefix=""):
+def concrete_inputs(sig, model_vals, prefix="", structs=()):
     """rebuild concrete input values from {var name: int | 'p/q'}"""
+    sdefs = {s.name: s for s in structs}
     def get(path, t):
         v = model_vals.get(path, 0)
         if t == "float":
@@ -156,6 +160,8 @@ def concrete_inputs(sig, model_vals, prefix=""):
                     return mk(t[1], p)
                 return [build(dims[1:], f"{p}_{i}") for i in range(dims[0])]
             return build(list(t[2]), path)
+        if A.is_struct(t) and t[1] in sdefs:
+            return {fn: mk(ft, f"{path}_{fn}") for ft, fn in sdefs[t[1]].fields}
         raise ValueError(t)
     return {n: mk(t, prefix + n) for t, n in sig}
 
